@@ -104,8 +104,22 @@ def _make(kind, name, seed, scen):
         # same state; the strategy must work on a copy and leave the caller's instance alone)
         qs = entry.make(np.random.RandomState(seed) if scen.get("rs_instance") else seed, np.nan, (0, 1))
 
+        # committees handed over FITTED (fit_ensemble=False): the caller's member objects serve every call of the
+        # history; what a query does with them (predictions that break ties with the members' own generators) must
+        # not make the next identical call differ
+        shared_kw = None
+        if scen.get("prefit") and entry.model == "ensemble" and len(conc["X"]) and \
+                not np.all(np.isnan(conc["y"])):
+            shared_kw = zoo.model_kwargs(entry, np.nan, (0, 1), seed=seed, variant=0)      # (variant 0: a list)
+            with warnings.catch_warnings():
+                warnings.simplefilter("ignore")
+                for m_ in shared_kw["ensemble"]:
+                    m_.fit(conc["X"], conc["y"])
+            shared_kw["fit_ensemble"] = False
+
         def call(h):
-            kw = zoo.model_kwargs(entry, np.nan, (0, 1), seed=seed, variant=scen["variant"])
+            kw = shared_kw if shared_kw is not None else \
+                zoo.model_kwargs(entry, np.nan, (0, 1), seed=seed, variant=scen["variant"])
             cand = conc["candidates"]
             res = qs.query(conc["X"].copy(), conc["y"].copy(), candidates=None if cand is None else np.array(cand),
                            batch_size=conc["batch_size"], return_utilities=True, **kw)
@@ -261,7 +275,7 @@ def main(tier="quick", seed=0):
         for n_ in range(per[e.cost]):
             sc = pool[int(rng.integers(len(pool)))]
             subjects.append((("pool", e.name), {"sc": sc, "dseed": int(rng.integers(1000)), "variant": n_ % 2,
-                                                "rs_instance": bool(n_ % 3 == 2),
+                                                "rs_instance": bool(n_ % 3 == 2), "prefit": bool(n_ % 2 == 1),
                                                 "tag": pc.scenario_tag(sc) + ("-rsinst" if n_ % 3 == 2 else "")}))
     # larger pools (20-40 samples, batches of 4-8) for the strategies that cluster or sample: with a handful of
     # points a clustering is the same for every initialisation and an unseeded estimator goes unnoticed
